@@ -270,6 +270,65 @@ def _install_fast_charmask():
     uc.CharMask.smt_matches = smt_matches
 
 
+def _install_mask_disk_cache():
+    """CrossHair scans all 1.1M code points (3-4 s) per process for isspace()/islower()... masks.
+    Cache the scans on disk (keyed by interpreter + Unicode version + code location): pure speed-up."""
+    import hashlib
+    import os
+    import pickle
+    import unicodedata
+    from functools import lru_cache
+    from crosshair import unicode_categories as uc
+    root = os.path.dirname(os.path.dirname(os.path.abspath(__file__)))
+    cdir = os.path.join(root, ".cache")
+    tag = "%s-%s" % (sys.version.split()[0], unicodedata.unidata_version)
+
+    def key_of(fn):
+        if getattr(fn, "__closure__", None):
+            return None
+        code = getattr(fn, "__code__", None)
+        if code is None:
+            return None
+        h = hashlib.sha1(code.co_code + repr(code.co_consts).encode() + repr(code.co_names).encode()).hexdigest()[:16]
+        return "%s-%s-%d-%s" % (tag, fn.__qualname__.replace("<", "").replace(">", ""), code.co_firstlineno, h)
+
+    def disk(kind, fn, compute):
+        k = key_of(fn)
+        if k is None:
+            return compute()
+        path = os.path.join(cdir, "xhmask-%s-%s.pickle" % (kind, k))
+        try:
+            with open(path, "rb") as f:
+                return pickle.load(f)
+        except Exception:
+            pass
+        val = compute()
+        try:
+            os.makedirs(cdir, exist_ok=True)
+            tmp = "%s.%d.tmp" % (path, os.getpid())
+            with open(tmp, "wb") as f:
+                pickle.dump(val, f)
+            os.replace(tmp, path)
+        except Exception:
+            pass
+        return val
+
+    stock_pred = uc.get_char_predicate_mask.__wrapped__
+    stock_map = uc.get_char_fn_map.__wrapped__
+
+    @lru_cache(maxsize=None)
+    def get_char_predicate_mask(predicate):
+        parts = disk("pred", predicate, lambda: stock_pred(predicate).parts)
+        return uc.CharMask(list(parts))
+
+    @lru_cache(maxsize=None)
+    def get_char_fn_map(mapping_fn):
+        return disk("map", mapping_fn, lambda: stock_map(mapping_fn))
+
+    uc.get_char_predicate_mask = get_char_predicate_mask
+    uc.get_char_fn_map = get_char_fn_map
+
+
 def apply():
     global _APPLIED
     if _APPLIED:
@@ -284,12 +343,17 @@ def apply():
     _install_format_value_repr()
     _install_fast_charmask()
     try:
+        _install_mask_disk_cache()
+    except Exception:
+        pass
+    try:
         register_patch(sys.intern, _intern)
     except Exception:
         core._PATCH_REGISTRATIONS[sys.intern] = _intern
 
 
 REPAIRS = [
+    "Unicode predicate masks (isspace, islower, ...) cached on disk instead of re-scanning all code points in every worker (performance only)",
     "CharMask.smt_matches memoised per mask via z3.substitute (performance only; identical formula)",
     "regex `$` (non-MULTILINE) modelled as (?=\\n?\\Z) instead of \\Z",
     "re.Pattern.findall built on the symbolic finditer (stock realises the subject)",
